@@ -17,3 +17,13 @@ static inline int pre_verif_f_stride(a3_t shape, unsigned long k) { return pre_v
 static inline int post_verif_f_stride(a3_t shape, unsigned long k, unsigned long ret) { return post_verif_stride(sv_of_a3(shape), k, ret); }
 static inline int pre_verif_m_compute_offset(a3_t indices, sv_t strides) { return pre_verif_compute_offset(sv_of_a3(indices), strides); }
 static inline int post_verif_m_compute_offset(a3_t indices, sv_t strides, unsigned long ret) { return post_verif_compute_offset(sv_of_a3(indices), strides, ret); }
+/* 32-bit element kind: logical values are the same numbers */
+#ifdef VERIF_NATIVE
+static inline sv_t sv_of_a3u(a3u_t a) { sv_t s; s.resize(3); for (int k = 0; k < 3; k++) s[k] = (unsigned long)a[k]; return s; }
+#else
+static inline sv_t sv_of_a3u(a3u_t a) { sv_t s; s.size_ = 3UL; for (int k = 0; k < 8; k++) s.buffer.buffer[k] = (k < 3) ? (unsigned long)a._M_elems[k] : 0UL; return s; }
+#endif
+static inline int pre_verif_f32_compute_offset(a3u_t indices, a3u_t strides) { return pre_verif_compute_offset(sv_of_a3u(indices), sv_of_a3u(strides)); }
+static inline int post_verif_f32_compute_offset(a3u_t indices, a3u_t strides, unsigned long ret) { return post_verif_compute_offset(sv_of_a3u(indices), sv_of_a3u(strides), ret); }
+static inline int pre_verif_m32_compute_offset(a3u_t indices, sv_t strides) { return pre_verif_compute_offset(sv_of_a3u(indices), strides); }
+static inline int post_verif_m32_compute_offset(a3u_t indices, sv_t strides, unsigned long ret) { return post_verif_compute_offset(sv_of_a3u(indices), strides, ret); }
